@@ -70,6 +70,81 @@ prim_elem!(u32, "u32");
 prim_elem!(u16, "u16");
 prim_elem!(u8, "u8");
 
+/// the remaining `impl Domain for X` of read-fonts (newtypes over u16 / u32): same driver, same model
+/// (continuous [0, dmax]); `mk` goes through the type's public constructor, `to_u32` through Domain.
+macro_rules! newtype_elem {
+    ($t:ty, $name:expr, $max:expr, $mk:expr) => {
+        impl Elem for $t {
+            const NAME: &'static str = $name;
+            const MODELLED: bool = true;
+            fn mk(v: u32) -> Self {
+                ($mk)(v)
+            }
+            fn dmin() -> u32 {
+                0
+            }
+            fn dmax() -> u32 {
+                $max
+            }
+            fn has(v: u32) -> bool {
+                v <= $max
+            }
+            fn succ(v: u32) -> Option<u32> {
+                (v < $max).then(|| v + 1)
+            }
+            fn pred(v: u32) -> Option<u32> {
+                if v == 0 {
+                    None
+                } else {
+                    Some((v - 1).min($max))
+                }
+            }
+            fn cnt() -> u64 {
+                $max as u64 + 1
+            }
+        }
+    };
+}
+newtype_elem!(font_types::GlyphId16, "GlyphId16", 0xFFFFu32, |v: u32| font_types::GlyphId16::new(v as u16));
+newtype_elem!(font_types::NameId, "NameId", 0xFFFFu32, |v: u32| font_types::NameId::new(v as u16));
+newtype_elem!(font_types::GlyphId, "GlyphId", u32::MAX, |v: u32| font_types::GlyphId::new(v));
+newtype_elem!(font_types::Tag, "Tag", u32::MAX, |v: u32| font_types::Tag::from_u32(v));
+
+/// every `impl Domain for X` in read-fonts' int_set/mod.rs must be driven by this harness: the list is read from
+/// the source tree under check and compared with the instantiations below (hard failure on an unknown impl).
+const DRIVEN_DOMAINS: [&str; 7] = ["u32", "u16", "u8", "GlyphId16", "GlyphId", "Tag", "NameId"];
+fn audit_domain_impls(st: &mut Stats) {
+    let repo = std::env::var("FV_REPO").unwrap_or_else(|_| "/repo".to_string());
+    let path = format!("{}/read-fonts/src/collections/int_set/mod.rs", repo);
+    let src = match std::fs::read_to_string(&path) {
+        Ok(s) => s,
+        Err(e) => {
+            st.oracle_failure(json!({"key": "domain-impls:unreadable", "what": format!("cannot read {}: {}", path, e)}));
+            return;
+        }
+    };
+    // only the non-test part of the file
+    let body = src.split("#[cfg(test)]").next().unwrap_or("");
+    let mut found: Vec<String> = vec![];
+    for line in body.lines() {
+        let l = line.trim();
+        if let Some(rest) = l.strip_prefix("impl Domain for ") {
+            found.push(rest.trim_end_matches('{').trim().to_string());
+        }
+    }
+    st.v.insert("domain_impls_in_source".into(), json!(found));
+    for f in &found {
+        if !DRIVEN_DOMAINS.contains(&f.as_str()) {
+            st.oracle_failure(json!({"key": format!("domain-impls:undriven:{}", f), "what": "an `impl Domain` in int_set/mod.rs is not instantiated by the harness driver"}));
+        }
+    }
+    for d in DRIVEN_DOMAINS {
+        if !found.iter().any(|f| f == d) {
+            st.oracle_failure(json!({"key": format!("domain-impls:missing:{}", d), "what": "a Domain impl the harness drives is no longer in int_set/mod.rs (shape of the file changed)"}));
+        }
+    }
+}
+
 /// continuous custom domain [0, 2047] (4 pages): inverted sets can be iterated completely
 #[derive(Debug, Copy, Clone, PartialEq, PartialOrd, Eq, Ord, Hash)]
 struct Small(u32);
@@ -996,19 +1071,27 @@ fn probes_for<E: Elem>(op: &Op, rng: &mut Rng, pool: &[u32]) -> Probes {
         }
         _ => {}
     }
-    vals.insert(E::dmin());
-    vals.insert(E::dmax());
     for _ in 0..3 {
         vals.insert(*rng.pick(pool));
     }
-    let vals: Vec<u32> = vals.into_iter().take(12).collect();
-    let after = vec![*rng.pick(&vals), *rng.pick(pool), E::dmax()];
+    // the domain's ends are always probed: min, min+1, max-1, max
+    let dmax1 = E::pred(E::dmax()).unwrap_or(E::dmax());
+    let dmin1 = E::succ(E::dmin()).unwrap_or(E::dmin());
+    let mut vals: Vec<u32> = vals.into_iter().take(9).collect();
+    for v in [E::dmin(), dmin1, dmax1, E::dmax()] {
+        if !vals.contains(&v) {
+            vals.push(v);
+        }
+    }
+    vals.sort();
+    let after = vec![*rng.pick(&vals), *rng.pick(pool), dmax1, E::dmax()];
     let mut pairs = vec![];
     for _ in 0..3 {
         let a = *rng.pick(&vals);
         let b = *rng.pick(&vals);
         pairs.push(if rng.chance(5, 6) { (a.min(b), a.max(b)) } else { (a, b) });
     }
+    pairs.push(*rng.pick(&[(E::dmax(), E::dmax()), (dmax1, E::dmax()), (E::dmin(), E::dmin()), (E::dmin(), dmin1), (dmin1, dmax1)]));
     Probes { vals, after, pairs, mask: u32::MAX }
 }
 
@@ -1122,10 +1205,29 @@ fn run_sequence<E: Elem>(cx: &mut Ctx, rng: &mut Rng, ops: &[Op], pool: &[u32], 
 // ---------------------------------------------------------------------------------------------
 const B11: [u32; 11] = [0, 1, 510, 511, 512, 513, 1023, 1024, 65535, u32::MAX - 1, u32::MAX];
 
-/// op universe over the 11-value boundary domain. `full`: every pair inside the low group as a range.
-fn universe(full: bool) -> Vec<Op> {
+/// the page-edge-rich boundary values of a domain: {0,1,510,511,512,513,1023,1024,65535, max-1, max} inside the
+/// domain (u32: exactly the 11-value domain B11); tiny domains get element edges instead
+fn blist<E: Elem>() -> Vec<u32> {
+    let base: Vec<u32> = if E::dmax() < 510 { vec![0, 1, 63, 64, 127, 128] } else { vec![0, 1, 510, 511, 512, 513, 1023, 1024, 65535] };
+    let mut v: BTreeSet<u32> = base.into_iter().filter(|x| E::has(*x)).collect();
+    v.insert(E::dmin());
+    if let Some(s) = E::succ(E::dmin()) {
+        v.insert(s);
+    }
+    if let Some(p) = E::pred(E::dmax()) {
+        v.insert(p);
+    }
+    v.insert(E::dmax());
+    v.into_iter().collect()
+}
+
+/// op universe over the boundary values of E. `full`: every pair inside the low group as a range.
+fn universe<E: Elem>(full: bool) -> Vec<Op> {
     let mut ops = vec![];
-    let low: Vec<u32> = B11[..8].to_vec();
+    let bl = blist::<E>();
+    let dmax = E::dmax();
+    let dmax1 = E::pred(dmax).unwrap_or(dmax);
+    let low: Vec<u32> = bl.iter().copied().filter(|v| *v <= 1024).collect();
     let mut pairs: Vec<(u32, u32)> = vec![];
     if full {
         for (i, a) in low.iter().enumerate() {
@@ -1133,25 +1235,32 @@ fn universe(full: bool) -> Vec<Op> {
                 pairs.push((*a, *b));
             }
         }
-        pairs.push((65535, 65535));
-        pairs.push((u32::MAX - 1, u32::MAX));
-        pairs.push((u32::MAX, u32::MAX));
-        pairs.push((513, 511)); // reversed: no-op
+        if E::has(65535) {
+            pairs.push((65535, 65535));
+        }
+        pairs.push((dmax1, dmax));
+        pairs.push((dmax, dmax));
     } else {
-        pairs = vec![(0, 511), (1, 510), (511, 512), (512, 1023), (510, 1024), (0, 1024), (u32::MAX - 1, u32::MAX), (513, 511)];
+        pairs = vec![(0, 511), (1, 510), (511, 512), (512, 1023), (510, 1024), (0, 1024), (0, 63), (63, 64), (dmax1, dmax)];
+        pairs.retain(|(a, b)| E::has(*a) && E::has(*b) && low.contains(a) || (*a, *b) == (dmax1, dmax));
+        pairs.retain(|(a, b)| E::has(*a) && E::has(*b));
     }
+    if low.len() >= 3 {
+        pairs.push((low[low.len() - 1], low[low.len() - 3])); // reversed: no-op
+    }
+    let dom = |vs: Vec<u32>| -> Vec<u32> { vs.into_iter().map(|v| if E::has(v) { v } else { E::pred(v).unwrap() }).collect() };
     for t in [false, true] {
-        for v in B11 {
-            ops.push(Op::Insert(t, v));
-            ops.push(Op::Remove(t, v));
+        for v in &bl {
+            ops.push(Op::Insert(t, *v));
+            ops.push(Op::Remove(t, *v));
         }
         for (a, b) in &pairs {
             ops.push(Op::InsertRange(t, *a, *b));
             ops.push(Op::RemoveRange(t, *a, *b));
         }
-        ops.push(Op::Extend(t, vec![511, 512, 0, u32::MAX], 0));
-        ops.push(Op::Extend(t, vec![1024, 1, 1023], 1));
-        ops.push(Op::RemoveAll(t, vec![512, u32::MAX, 1, 7]));
+        ops.push(Op::Extend(t, dom(vec![511, 512, 0, dmax]), 0));
+        ops.push(Op::Extend(t, dom(vec![1024, 1, 1023]), 1));
+        ops.push(Op::RemoveAll(t, dom(vec![512, dmax, 1, 7])));
         ops.push(Op::Union(t));
         ops.push(Op::Intersect(t));
         ops.push(Op::Subtract(t));
@@ -1162,16 +1271,16 @@ fn universe(full: bool) -> Vec<Op> {
     ops
 }
 
-fn exhaustive(cx: &mut Ctx, rng: &mut Rng, depth: usize, full: bool, coq_every: u64) {
-    let uni = universe(full);
-    cx.st.v.insert(format!("exhaustive_depth{}_universe", depth), uni.len().into());
-    let pool: Vec<u32> = B11.to_vec();
+fn exhaustive<E: Elem>(cx: &mut Ctx, rng: &mut Rng, depth: usize, full: bool, coq_every: u64) {
+    let uni = universe::<E>(full);
+    cx.st.v.insert(format!("exhaustive_depth{}_universe_{}", depth, E::NAME), uni.len().into());
+    let pool: Vec<u32> = blist::<E>();
     let mut idx = vec![0usize; depth];
     loop {
         let ops: Vec<Op> = idx.iter().map(|i| uni[*i].clone()).collect();
-        let to_coq = depth == 1 || rng.below(coq_every) == 0;
-        run_sequence::<u32>(cx, rng, &ops, &pool, false, to_coq, false);
-        cx.st.count(&format!("exhaustive.depth{}", depth));
+        let to_coq = rng.below(coq_every) == 0;
+        run_sequence::<E>(cx, rng, &ops, &pool, false, to_coq, false);
+        cx.st.count(&format!("exhaustive.depth{}.{}", depth, E::NAME));
         // next tuple
         let mut k = depth;
         loop {
@@ -1406,15 +1515,37 @@ fn main() {
     let lap = |what: &str| eprintln!("[c14] {:>7.2}s {}", t0.elapsed().as_secs_f64(), what);
 
     // 1. bounded-exhaustive over the 11-value boundary domain
-    exhaustive(&mut cx, &mut rng, 1, true, 1);
+    audit_domain_impls(&mut cx.st);
+    exhaustive::<u32>(&mut cx, &mut rng, 1, true, 1);
     lap("depth1 done");
-    exhaustive(&mut cx, &mut rng, 2, true, if thorough { 6 } else { 28 });
+    exhaustive::<u32>(&mut cx, &mut rng, 2, true, if thorough { 6 } else { 28 });
     lap("depth2 done");
+    // every other Domain impl of read-fonts through the same generic driver: all single operations over the domain's
+    // boundary values (min, min+1, page edges, max-1, max), all pairs over the reduced universe, sampled triples
+    fn per_domain<E: Elem>(cx: &mut Ctx, rng: &mut Rng, thorough: bool) {
+        exhaustive::<E>(cx, rng, 1, true, 4);
+        exhaustive::<E>(cx, rng, 2, false, if thorough { 20 } else { 60 });
+        let uni = universe::<E>(false);
+        let pool = blist::<E>();
+        for i in 0..(if thorough { 40_000 } else { 3_000 }) {
+            let len = 3 + rng.below(3) as usize;
+            let ops: Vec<Op> = (0..len).map(|_| rng.pick(&uni).clone()).collect();
+            run_sequence::<E>(cx, rng, &ops, &pool, false, i % 60 == 0, false);
+            cx.st.count(&format!("sampled.depth3to5.{}", E::NAME));
+        }
+    }
+    per_domain::<font_types::GlyphId16>(&mut cx, &mut rng, thorough);
+    per_domain::<font_types::NameId>(&mut cx, &mut rng, thorough);
+    per_domain::<font_types::GlyphId>(&mut cx, &mut rng, thorough);
+    per_domain::<font_types::Tag>(&mut cx, &mut rng, thorough);
+    per_domain::<u16>(&mut cx, &mut rng, thorough);
+    per_domain::<u8>(&mut cx, &mut rng, thorough);
+    lap("per-domain exhaustive done");
     if thorough {
-        exhaustive(&mut cx, &mut rng, 3, false, 60);
+        exhaustive::<u32>(&mut cx, &mut rng, 3, false, 60);
     } else {
         // depth 3 over the reduced universe is ~1e6 sequences: quick tier samples it
-        let uni = universe(false);
+        let uni = universe::<u32>(false);
         let pool: Vec<u32> = B11.to_vec();
         for i in 0..30_000 {
             let ops: Vec<Op> = (0..3).map(|_| rng.pick(&uni).clone()).collect();
@@ -1423,7 +1554,7 @@ fn main() {
         }
     }
     {
-        let uni = universe(false);
+        let uni = universe::<u32>(false);
         let pool: Vec<u32> = B11.to_vec();
         let n = if thorough { 300_000 } else { 12_000 };
         for i in 0..n {
@@ -1444,6 +1575,10 @@ fn main() {
     random_stream::<u16>(&mut cx, &mut rng, 300 * m, 40, 50 * m, &pool16, 3000, false);
     let pool8: Vec<u32> = vec![0, 1, 63, 64, 65, 127, 128, 254, 255];
     random_stream::<u8>(&mut cx, &mut rng, 300 * m, 30, 50 * m, &pool8, 255, true);
+    random_stream::<font_types::GlyphId16>(&mut cx, &mut rng, 150 * m, 40, 25 * m, &pool16, 3000, false);
+    random_stream::<font_types::NameId>(&mut cx, &mut rng, 150 * m, 40, 25 * m, &pool16, 3000, false);
+    random_stream::<font_types::GlyphId>(&mut cx, &mut rng, 150 * m, 40, 25 * m, &pool32, 20_000, false);
+    random_stream::<font_types::Tag>(&mut cx, &mut rng, 150 * m, 40, 25 * m, &pool32, 20_000, false);
     let pools: Vec<u32> = vec![0, 1, 63, 64, 511, 512, 513, 1023, 1024, 1535, 1536, 2046, 2047];
     random_stream::<Small>(&mut cx, &mut rng, 300 * m, 40, 60 * m, &pools, 2047, true);
     let poole: Vec<u32> = vec![0, 2, 62, 64, 510, 512, 514, 1022, 1024, 1026, 2044, 2046];
@@ -1461,7 +1596,7 @@ fn main() {
     cx.st.v.insert("model_cases".into(), cx.cw.len().into());
     cx.st.write(
         &dir,
-        "operation sequences from two empty sets: exhaustive length 1-2 (thorough: 3 over a reduced universe) over {0,1,510,511,512,513,1023,1024,65535,2^32-2,2^32-1} with insert/remove/ranges/extend/remove_all/union/intersect/subtract/invert/clear/assign on either set, sampled length 3-6, random length<=40 over u32/u16/u8/custom continuous [0,2047]/Even/TwoIntervals with observation after every step; RangeSet random insert sequences + intersections; non-trivial = sequence of >= 2 ops (distinct by domain+ops) or RangeSet with >= 2 resulting ranges",
+        "operation sequences from two empty sets: exhaustive length 1-2 (thorough: 3 over a reduced universe) over {0,1,510,511,512,513,1023,1024,65535,2^32-2,2^32-1} with insert/remove/ranges/extend/remove_all/union/intersect/subtract/invert/clear/assign on either set, sampled length 3-6, for every other Domain impl (GlyphId16, NameId, GlyphId, Tag, u16, u8) all single operations and all reduced-universe pairs over that domain's boundary values (min, min+1, page edges, max-1, max) plus sampled length 3-5; random length<=40 over u32/u16/u8/GlyphId16/NameId/GlyphId/Tag/custom continuous [0,2047]/Even/TwoIntervals with observation after every step (probes always include the domain's min, min+1, max-1, max); the list of `impl Domain` in the source under check must equal the list of driven domains; RangeSet random insert sequences + intersections; non-trivial = sequence of >= 2 ops (distinct by domain+ops) or RangeSet with >= 2 resulting ranges",
     );
     println!("cases={} shards={} evaluations={} oracle_failures={}", cx.cw.len(), shards, cx.st.evaluations, cx.st.oracle_failures.len());
 }
